@@ -74,6 +74,11 @@ CleanNamed(sel, pts, now) ==
   /\ sel # 0
   /\ \A i \in 1..Len(pts) : pts[i].t <= now /\ pts[i].t > now - RetOf(cfg, sel)
   /\ \A i, j \in 1..Len(pts) : i # j => AlignW(StepOf(cfg, sel), pts[i].t) # AlignW(StepOf(cfg, sel), pts[j].t)
+  \* ... and into pairwise different ring slots: with a clock that is not aligned to the step the retention touches N+1
+  \* intervals, so the oldest and the newest point of one batch can be exactly one lap apart (the later interval wins, in
+  \* time order, whatever the input order: that resolution is checked on the ring itself, not through this ghost)
+  /\ \A i, j \in 1..Len(pts) : i # j =>
+        ClassOf(cfg, sel, AlignW(StepOf(cfg, sel), pts[i].t)) # ClassOf(cfg, sel, AlignW(StepOf(cfg, sel), pts[j].t))
 
 RECURSIVE ApplyNamed(_, _, _)
 ApplyNamed(o, a, pts) ==
